@@ -103,7 +103,7 @@ IMM = [
     ("imm_bin32", "thorough", "sign, value:u32 (all), b/B", "[-]0b + 32 binary digits", "32 digits, unwind 37"),
     ("imm_bin33", "thorough", "sign, value < 2^33", "[-]0b + 33 binary digits (out of range magnitudes)", "33 digits"),
     ("imm_bin5", "thorough", "sign, value < 32", "[-]0b + 5 binary digits", "5 digits"),
-    ("imm_dec9", "quick", "sign, 9 decimal digits", "[-] + 9 decimal digits: every value up to 999 999 999", "9 digits"),
+    ("imm_dec9", "thorough", "sign, 9 decimal digits", "[-] + 9 decimal digits: every value up to 999 999 999", "9 digits"),
     ("imm_dec10_window", "quick", "sign, last 4 of 10 decimal digits", "[-]214748dddd: the 10 000 values around 2^31, both signs", "10 digits, 6 fixed"),
     ("imm_dec10", "thorough", "sign, value < 10^10", "[-] + 10 decimal digits: every value up to 9 999 999 999", "10 digits"),
     ("imm_dec6", "thorough", "sign, 6 decimal digits", "[-] + 6 decimal digits", "6 digits"),
@@ -196,6 +196,7 @@ for k in KINDS:
             continue
         h("props_%s_%s" % (k, g), "ob_props", ps, symbolic="node fields (opcode, registers, imm, csr), probe register" + (", 32 register contents" if g == "misc" else ""),
           desc="%s node: %s" % (k, d), bounds="unwind 34", stubs=UUID,
+          cap=900 if (g == "rw" and k in ("arith", "branch", "store")) else None, mem=6 if g == "rw" else 3,
           optional=(g == "misc" and k in ("basic", "la", "csri", "funcentry")) or (g in ("kill", "gen") and k in ("basic", "la", "csri", "branch")))
 for k in ("arith", "iarith", "jalr", "branch", "store", "load", "csr"):
     h("oracle_ni_" + k, "ob_props", ["C08"], tier="thorough", symbolic="node fields, two register files",
@@ -222,7 +223,7 @@ for c in []:  # Kani cannot execute ParserNode::try_from on text inside its caps
 # ---------------------------------------------------------------------------
 # C01.b/e: generated facts, seeding, meet, kill
 for k in ("arith", "arith_zero", "iarith", "load", "la", "jal", "jalr", "csr", "csri", "store", "branch"):
-    h("gen_reg_" + k, "ob_gen", ["C01", "C06"], symbolic="node fields, entry/pre register files, addressed memory word",
+    h("gen_reg_" + k, "ob_gen", ["C01"], symbolic="node fields, entry/pre register files, addressed memory word",
       desc="gen_reg_value of a %s node is true (gamma) in the post-state of the instruction" % k, bounds="unwind 34", stubs=UUID)
 h("gen_mem_store_sp", "ob_gen", ["C01"], symbolic="store width, registers, imm, register file, old memory word",
   desc="gen_memory_value of an sp-relative store: slot offset and content are what the store writes", bounds="unwind 34", stubs=UUID)
@@ -234,31 +235,31 @@ for k in ("arith", "load", "jal"):
 # (gen_seeding - RegisterSet::into_available_values - needs unwind 34 for the set iterator, which makes every loop over
 # the Vec-backed map unroll 34 times: symbolic execution does not finish in 300 s.  Seeding is RegisterSetIter (C14,
 # regs_set_iter) composed with a one-line closure; not registered.)
-h("gen_meet", "ob_gen", ["C01", "C12x"], symbolic="two maps on 2 keys: presence bit of the second key, values (variant, payload, register)",
-  desc="AvailableValueMap &= keeps exactly the keys bound to equal values in both", bounds="2 keys, unwind 8", mem=12, cap=900)
-h("gen_kill_step", "ob_gen", ["C01"], symbolic="map on 2 keys, killed register", desc="map -= set removes exactly the killed keys", bounds="2 keys", mem=12, cap=900)
+# (gen_meet / gen_kill_step - AvailableValueMap &= and -= on two keys with symbolic presence - were built and measured:
+# symbolic execution finishes in 40 s but the formula is not decided in 900 s / 40 GB; writes to a Vec of 150-byte fact
+# values at symbolic positions.  Not registered; the two operators are three lines each over the std container.)
 
 # C01.c: rewrite rules (catalogue of roles x variants)
 _rules = _json.load(open(_os.path.join(_os.path.dirname(_os.path.abspath(__file__)), "..", "kani", "catalogue", "rules_cases.json")))
 OPC = ["riscv_analysis::cfg::MathOp::operate -> RV32IM reference for the 10 operators without multiplier/divider (contract stub; "
        "operate itself is decided for all operands by fold_* and E2)"]
 for c in _rules:
-    h(c["name"], "gen_rules", ["C01", "C06"], tier=c["tier"], symbolic=c["symbolic"], desc=c["desc"],
+    h(c["name"], "gen_rules", ["C01", "C06"] if c["name"] == "rule_offsets_np" else ["C01"], tier=c["tier"], symbolic=c["symbolic"], desc=c["desc"],
       bounds="concrete register roles (catalogue), <= 3 facts per map, unwind 9",
       stubs=UUID, mem=12, cap=900)
 
 # ---------------------------------------------------------------------------
 # C06: abs() in message formatting; C18.a ordering; C19 dump values
-FMT = ["core::fmt::write -> Ok(()) (formatting is not the subject; the argument expressions are still evaluated)"]
+FMT = ["core::fmt::Formatter::write_fmt -> Ok(()) (the write! inside a Display::fmt body; its argument expressions are still evaluated)"]
 h("abs_memloc_fmt", "ob_misc", ["C06"], symbolic="offset:i32", desc="Display for MemoryLocation::StackOffset(o) never panics (o.abs())", bounds="none", stubs=FMT)
-h("abs_lint_fmt", "ob_misc", ["C06"], symbolic="offset:i32, variant", desc="Display for LintError::InvalidStackPosition/InvalidStackOffsetUsage never panics (i.abs())", bounds="none", stubs=FMT + UUID)
+h("abs_lint_fmt", "ob_misc", ["C06"], tier="thorough", cap=1500, mem=10, symbolic="offset:i32, variant", desc="Display for LintError::InvalidStackPosition/InvalidStackOffsetUsage never panics (i.abs())", bounds="none", stubs=FMT + UUID)
 h("abs_memloc_ser", "ob_misc", ["C06", "C19"], symbolic="offset:i32", desc="Serialize for MemoryLocation::StackOffset(o) never panics (o.abs())", bounds="none",
   stubs=["alloc::fmt::format -> empty String (arguments still evaluated)"])
 h("serde_fact_injective", "ob_misc", ["C19"], symbolic="two facts: variant (9), i32, u32 csr, register, label (2)",
   desc="record(a) == record(b) => a == b under a recording Serializer that keeps variant names and scalar values", bounds="labels from a 2-entry set; unwind 8")
 h("serde_scalar_records", "ob_misc", ["C19"], symbolic="register, i32, u32", desc="Register / Imm / CsrImm serialize to their number", bounds="none")
-h("serde_regset_roundtrip", "ob_misc", ["C19"], symbolic="4-bit mask at a symbolic nibble position",
-  desc="RegisterSet: deserialize(serialize(s)) == s", bounds="<= 3 members inside one nibble window; unwind 34")
+h("serde_regset_roundtrip", "ob_misc", ["C19"], tier="thorough", cap=1500, mem=10, symbolic="2-bit mask at a symbolic position",
+  desc="RegisterSet: deserialize(serialize(s)) == s", bounds="<= 2 adjacent members; unwind 34")
 h("diag_cmp_order", "ob_misc", ["C18"], symbolic="3 items: file (2 values), start/end raw offsets",
   desc="DiagnosticItem::cmp is a total order consistent with ==, and position order within a file", bounds="3 items")
 h("diag_sort_three", "ob_misc", ["C18"], symbolic="3 items: file (2 values), raw offset",
@@ -269,3 +270,27 @@ prop("C18", outside="agreement between pretty/compact/JSON/RVParser::run (four c
 prop("C19", outside="MemoryLocation strings (format!-based), AvailableValueMap (BTreeMap collection), the CFG-level dump, "
      "edges/functions, YAML syntax (serde_yaml)",
      assumptions=COMMON_ASSUME + ["the recording Serializer keeps exactly what a self-describing format keeps: variant name, scalar value, sequence elements, strings"])
+
+# ---------------------------------------------------------------------------
+# (A token-range harness - real Lexer::next() on a concrete statement behind four symbolic layout characters drawn from
+# newline/space/tab - was built and measured: all five statements hit the 900 s cap; one symbolic character in front of
+# Lexer::next is already too much, as in the design-phase probe.  Not registered.)
+h("serde_regset_single", "ob_misc", ["C19"], symbolic="register r", desc="RegisterSet {r} serializes to the sequence [r]", bounds="unwind 34")
+
+# ---------------------------------------------------------------------------
+# C01 (and C06): engine E4 - the facts of whole programs are inductive invariants
+E4_FAMILIES = [
+    ("hand", "26 hand-written programs: save/restore, constant chains, sp arithmetic, joins, loops, calls, byte accesses, x0 writes, ecall results"),
+    ("seq1", "every 1-instruction body over the 14-instruction alphabet"), ("seq2", "every 2-instruction body (196)"),
+    ("seq3", "every 3-instruction body (2744)"),
+    ("diamond", "branch diamond with every choice of (then, else, join) instruction (2744)"),
+    ("skip", "conditionally skipped instruction followed by every instruction and a reload (196)"),
+    ("loop", "loop with every choice of (pre-header, body, exit) instruction (2744)"),
+    ("call", "call between every pair of instructions (196)"),
+]
+for fam, d in E4_FAMILIES:
+    side("e4_" + fam, "e4", ["C01", "C06"], symbolic="entry register file, current register file (31 x BitVec 32 each), memory (Array BitVec32 BitVec32), havoc values",
+         desc="E4: %s - every value fact the REAL pipeline attaches is an inductive invariant (entry, transfer and edge VCs) for all machine states" % d,
+         bounds="program family enumerated exhaustively; word-granular memory; calls havoc caller-saved+ra", family=fam)
+side("e4_seq4", "e4", ["C01", "C06"], tier="thorough", symbolic="as above", desc="E4: every 4-instruction body over the alphabet (38416 programs)",
+     bounds="exhaustive", family="seq4")
